@@ -163,21 +163,83 @@ class Harness:
         ctx_ = ctx
 
         class VerifClock(_dt.datetime):
-            """geodepy.gnss.datetime stand-in: now() is an input of the run."""
+            """geodepy.gnss.datetime stand-in: the current time is an input of the run, whichever way it is asked for."""
             _now = None
 
             @classmethod
-            def now(cls, tz=None):
+            def _read(cls):
                 ctx_.count('clock_reads')
                 if cls._now is None:
                     raise core.Inconclusive('substituted clock read before it was set')
                 return cls._now
-        if getattr(self.G, 'datetime', None) is None or not isinstance(self.G.datetime, type):
-            raise core.Inconclusive('geodepy.gnss has no datetime class to substitute')
-        self.real_datetime = self.G.datetime
+
+            @classmethod
+            def now(cls, tz=None):
+                return cls._read()
+
+            @classmethod
+            def utcnow(cls):
+                return cls._read()
+
+            @classmethod
+            def today(cls):
+                return cls._read()
+
+        class ModuleProxy:
+            """stand-in for a module object bound in geodepy.gnss (`import datetime` / `import time`): the clock functions
+            answer from the substituted clock, everything else is the real module's"""
+
+            def __init__(self, real, overrides):
+                self.__dict__['_real'] = real
+                self.__dict__['_over'] = overrides
+
+            def __getattr__(self, name):
+                if name in self._over:
+                    return self._over[name]
+                return getattr(self._real, name)
+
+        import time as _time
+        import types as _types
+
+        def _stamp():
+            return VerifClock._read()
+
+        def _secs(t=None):
+            return _time.mktime(_stamp().timetuple()) + _stamp().microsecond / 1e6
+
+        time_over = {'time': lambda: _secs(), 'time_ns': lambda: int(_secs() * 1e9),
+                     'localtime': lambda secs=None: _stamp().timetuple() if secs is None else _time.localtime(secs),
+                     'gmtime': lambda secs=None: _stamp().timetuple() if secs is None else _time.gmtime(secs),
+                     'strftime': lambda fmt, t=None: _time.strftime(fmt, _stamp().timetuple() if t is None else t)}
+        self.substituted = []
+        self.saved_names = {}
+        for name, val in list(vars(self.G).items()):
+            if isinstance(val, type) and issubclass(val, _dt.datetime):
+                self.saved_names[name] = val
+                setattr(self.G, name, VerifClock)
+                self.substituted.append(name + ' (datetime class)')
+            elif isinstance(val, _types.ModuleType) and val is _dt:
+                self.saved_names[name] = val
+                setattr(self.G, name, ModuleProxy(val, {'datetime': VerifClock}))
+                self.substituted.append(name + ' (datetime module)')
+            elif isinstance(val, _types.ModuleType) and val is _time:
+                self.saved_names[name] = val
+                setattr(self.G, name, ModuleProxy(val, time_over))
+                self.substituted.append(name + ' (time module)')
+            elif name in time_over and val is getattr(_time, name, None):
+                self.saved_names[name] = val
+                setattr(self.G, name, time_over[name])
+                self.substituted.append(name + ' (time function)')
+        if not self.substituted:
+            raise core.Inconclusive('geodepy.gnss binds no clock (datetime class/module, time module/function) to substitute')
+        ctx.info['clock_substituted_for'] = self.substituted
+        self.real_datetime = self.saved_names.get('datetime')
         self.Clock = VerifClock
-        self.G.datetime = VerifClock
         self.pandas_stub = bool(getattr(sys.modules.get('pandas'), '__verif_stub__', False))
+
+    def restore_clock(self):
+        for name, val in self.saved_names.items():
+            setattr(self.G, name, val)
 
     def set_clock(self, c):
         self.Clock._now = self.Clock(*c)
@@ -721,7 +783,7 @@ def run_shard(spec, ctx):
     finally:
         reach.stop()
         os.chdir(cwd0)
-        h.G.datetime = h.real_datetime
+        h.restore_clock()
     ctx.info['lines_reached'] = reach.summary()
 
 
@@ -750,4 +812,4 @@ def replay(case, ctx):
                 run_edit(h, ctx, m, lines, inpath, case['op'], case.get('remove', []), case['clocks'])
     finally:
         os.chdir(cwd0)
-        h.G.datetime = h.real_datetime
+        h.restore_clock()
